@@ -147,7 +147,50 @@ def check(ck: Checker) -> None:
                     who = [norm(x.args[0]) for x in gi if flows_from_calls(g, d, el, [x]) and x.args]
                     srcs.append(who)
                 ck.require(srcs[0] == ["old"] and srcs[1] == ["new"], "C08.descent", fn, d, "children of (old, new) are queued together in that order", f"queued children come from {srcs}, not from (old, new)", construct=f"{d.text()} / sides")
+    _roots(ck, fn, g)
+    _classify(ck)
     _renames(ck)
+
+
+def _roots(ck: Checker, fn: Func, g) -> None:
+    """Each root is looked up on both sides independently: a root missing on one side must not skip the other."""
+    infos = [(n, c) for n in g.nodes.values() for c in calls_at(n) if is_method_call(c, "info") and isinstance(c.func.value, ast.Name) and c.func.value.id in ("old", "new") and len(n.loops) == 1]
+    ck.floor("C08.roots", len(infos), 2, "root lookups (old.info(root) / new.info(root))")
+    by_side = {c.func.value.id: n for n, c in infos}
+    for side, other in (("old", "new"), ("new", "old")):
+        n = by_side.get(side)
+        o = by_side.get(other)
+        if n is None or o is None:
+            ck.fail("C08.roots", fn, fn.node, f"no root lookup on the {side if n is None else other} side")
+            continue
+        hs = [d for lab, d in n.succ if lab == "exc"]
+        if not hs:
+            continue
+        head = n.loops[-1]
+        # after the lookup on this side raised, the other side's lookup still happens (or already happened)
+        r = g.reach(hs, skip_node=lambda x: x.id == head)
+        before = o.id in {x for x in g.reach([head], skip_node=lambda x, n=n: x.id == n.id)} and o.id not in g.reach([n.id], skip_node=lambda x: x.id == head)
+        ck.require(o.id in r or before, "C08.roots", fn, n,
+                   f"a root missing from the {side} index does not skip the lookup in the {other} index",
+                   f"when `{side}.info(root)` raises (root absent on that side) the `{other}.info(root)` lookup is skipped as well: everything below a root that exists on one side only is dropped from the diff",
+                   construct=f"{side}.info(root) / independent of {other}")
+
+
+def _classify(ck: Checker) -> None:
+    """The hash comparison looks at whole HashInfo values (algorithm name and digest)."""
+    fn = ck.prog.func("index.diff", "_diff_hash_info")
+    params = set(fn.pos_params)
+    whole, partial = [], []
+    for x in walk_own(fn.node):
+        if isinstance(x, ast.Compare) and len(x.ops) == 1 and isinstance(x.ops[0], (ast.Eq, ast.NotEq)):
+            sides = [x.left, x.comparators[0]]
+            if all(isinstance(s_, ast.Name) and s_.id in params for s_ in sides):
+                whole.append(x)
+            elif any(isinstance(s_, ast.Attribute) and isinstance(s_.value, ast.Name) and s_.value.id in params for s_ in sides):
+                partial.append(x)
+    ck.require(bool(whole) and not partial, "C08.classify", fn, (partial or whole or [fn.node])[0],
+               "hash entries are compared as whole HashInfo values (name and digest)",
+               f"hash entries are compared by a projection ({norm(partial[0]) if partial else 'no whole-value comparison'}): the same digest under another algorithm name is reported as unchanged")
 
 
 def _renames(ck: Checker) -> None:
